@@ -1,18 +1,26 @@
 (* translate/r2c tie, round 3 (4): Framebuffer::set_pixel of the RawU8 impl (src/framebuffer.rs:210-219; the sub-byte and
-   multi-byte set_pixel bodies are macro bodies).  `self.data[i] = v` is Casts.slice_set (a bounds-checked list update);
+   multi-byte set_pixel bodies are macro bodies).  `self.data[i] = v` is Casts.slice_set under the range test (None = the index panic);
    `usize::try_from(p.x)` is Casts.try_from_range; WIDTH / HEIGHT (const generics of the impl) and `c.into()` (the colour ->
    raw conversion of the generic colour type, property C12's subject) are parameters.  The data afterwards equals
    Framebuffer.fb_set_pixel on the U8 configuration, for i32 coordinates. *)
 From EG Require Import Base.Prelude Base.Casts Model.Geometry Model.Rawdata Model.Framebuffer Gen.SrcGeometry Gen.SrcRawData Gen.SrcFbSetPixel Proofs.SrcLoadStore.
 Set Default Timeout 60.
 
+(* the point is inside the WIDTH x HEIGHT framebuffer (both `usize::try_from` succeed and the bounds test passes) *)
+Definition in_fb (W H : Z) (p : point) : bool := (0 <=? px p) && (0 <=? py p) && ((px p <? W) && (py p <? H)).
+
+(* the generated set_pixel is option-valued: None = the index panic of `self.data[i] = v`.  It panics exactly when the point is
+   inside the framebuffer and the index is outside the data array; otherwise the data is the model's. *)
 Lemma src_fb_set_pixel_u8_eq alt W H into fb p c :
   i32_min <= px p <= i32_max -> i32_min <= py p <= i32_max ->
-  Framebuffer_data (src_Framebuffer_set_pixel W H into fb p c)
-  = fb_set_pixel (FbCfg U8 alt W H) (Framebuffer_data fb) (px p, py p) (into c).
+  src_Framebuffer_set_pixel W H into fb p c
+  = if in_fb W H p && negb (py p * W + px p <? Z.of_nat (length (Framebuffer_data fb)))
+    then None
+    else Some (Build_Framebuffer (fb_set_pixel (FbCfg U8 alt W H) (Framebuffer_data fb) (px p, py p) (into c)) (Framebuffer_n_assert fb)).
 Proof.
-  intros Hx Hy. unfold src_Framebuffer_set_pixel, fb_set_pixel, Casts.try_from_range, i32_min, i32_max in *.
-  cbn [fb_t fb_w fb_h fb_alt].
+  intros Hx Hy. destruct fb as [data na].
+  unfold src_Framebuffer_set_pixel, fb_set_pixel, in_fb, Casts.try_from_range, i32_min, i32_max in *.
+  cbn [fb_t fb_w fb_h fb_alt Framebuffer_data Framebuffer_n_assert].
   destruct (Z.leb_spec 0 (px p)) as [X|X]; cbn [andb].
   2:{ destruct ((px p <=? 18446744073709551615)); reflexivity. }
   destruct (Z.leb_spec 0 (py p)) as [Y|Y]; cbn [andb].
@@ -20,8 +28,23 @@ Proof.
   rewrite (proj2 (Z.leb_le (px p) 18446744073709551615)) by lia.
   rewrite (proj2 (Z.leb_le (py p) 18446744073709551615)) by lia.
   destruct ((px p <? W) && (py p <? H))%bool eqn:E; [|reflexivity].
-  apply andb_prop in E. destruct E as [E1 E2]. apply Z.ltb_lt in E1.
-  cbn [Framebuffer_data]. rewrite !Casts.cast_i32_usize_id by lia.
-  unfold src_RawU8_into_inner. apply slice_set_eq.
-  nia.
+  apply andb_prop in E. destruct E as [E1 E2]. apply Z.ltb_lt in E1. cbn [andb].
+  cbv zeta. rewrite !Casts.cast_i32_usize_id by lia.
+  rewrite (proj2 (Z.leb_le 0 (py p * W + px p))) by nia. cbn [andb].
+  destruct (py p * W + px p <? Z.of_nat (length data)); cbn [negb]; [|reflexivity].
+  unfold src_RawU8_into_inner. rewrite slice_set_eq by nia. reflexivity.
+Qed.
+
+(* with the buffer that CHECK_N demands (N >= WIDTH * HEIGHT) set_pixel never panics *)
+Lemma src_fb_set_pixel_u8_some alt W H into fb p c :
+  i32_min <= px p <= i32_max -> i32_min <= py p <= i32_max -> W * H <= Z.of_nat (length (Framebuffer_data fb)) ->
+  src_Framebuffer_set_pixel W H into fb p c
+  = Some (Build_Framebuffer (fb_set_pixel (FbCfg U8 alt W H) (Framebuffer_data fb) (px p, py p) (into c)) (Framebuffer_n_assert fb)).
+Proof.
+  intros Hx Hy HB. rewrite (src_fb_set_pixel_u8_eq alt) by assumption.
+  destruct (in_fb W H p) eqn:E; [|reflexivity]. unfold in_fb in E.
+  repeat (apply andb_prop in E; destruct E as [E ?]).
+  repeat match goal with H : andb _ _ = true |- _ => apply andb_prop in H; destruct H end.
+  repeat match goal with H : (_ <=? _) = true |- _ => apply Z.leb_le in H | H : (_ <? _) = true |- _ => apply Z.ltb_lt in H end.
+  rewrite (proj2 (Z.ltb_lt _ _)) by nia. reflexivity.
 Qed.
